@@ -33,83 +33,112 @@ ASSUMPTIONS = [
 
 
 def rule_header(ctx, res, mm):
+    """Header behaviour read off the extracted transducer (not off the names
+    of its state variables): feed every sequence of comment / space / newline
+    tokens to the initial state and observe what each comment emits."""
     where = mm.core.qual
-    sv = mm.state_vars
-    try:
-        i_seen = [i for i, k in enumerate(sv) if 'seen_non' in k or
-                  'seen_code' in k][0]
-        i_hdr = [i for i, k in enumerate(sv) if 'header' in k][0]
-    except IndexError:
-        res.vanished('R-C19-header', where, 'header state',
-                     'header counter / code-seen flag not found among {}'
-                     .format(sv))
-        return None
-    N = mm.cap.get(sv[i_hdr], 1) - 1
-    res.tables['header_comments_kept'] = N
-    bad_keep = bad_drop = bad_pre = None
-    for s in mm.states:
+    K = 6
+    start = (mm.initial, 0)
+    seen = {start}
+    todo = [start]
+    emits = {}            # comment ordinal -> set of outputs
+    bad_pre = None
+    while todo:
+        (s, k) = todo.pop()
         outs, ns = mm.table[('Comment', s)]
-        in_header = (not s[i_seen]) and s[i_hdr] < N
-        if in_header:
-            if outs != (('code',), ('lit', b'\n')) or \
-                    ns[i_hdr] != s[i_hdr] + 1:
-                bad_keep = (s, outs, ns)
-        else:
-            if outs:
-                bad_drop = (s, outs)
-        if not s[i_seen]:
-            for fil in ('Space', 'Newline'):
-                o, _ = mm.table[(fil, s)]
-                if o:
-                    bad_pre = (fil, s, o)
-    res.check(bad_keep is None, 'R-C19-header', where,
+        emits.setdefault(k + 1, set()).add(outs)
+        nxt = (ns, min(k + 1, K))
+        if nxt not in seen:
+            seen.add(nxt)
+            todo.append(nxt)
+        for fil in ('Space', 'Newline'):
+            o, ns2 = mm.table[(fil, s)]
+            if o and bad_pre is None:
+                bad_pre = (fil, s, o)
+            nxt = (ns2, k)
+            if nxt not in seen:
+                seen.add(nxt)
+                todo.append(nxt)
+    KEEP = (('code',), ('lit', b'\n'))
+    N = 0
+    while N + 1 in emits and emits[N + 1] == {KEEP} and N < K:
+        N += 1
+    res.tables['header_comments_kept'] = N
+    bad_keep = None
+    for j in sorted(emits):
+        if j <= N:
+            continue
+        if emits[j] != {()}:
+            bad_keep = (j, sorted(emits[j], key=repr))
+            break
+    res.check(N >= 1 and bad_keep is None, 'R-C19-header', where,
               'leading comments are passed through verbatim, one per line',
-              'comment -> its code + line end, counter + 1, while no code '
-              'was seen and fewer than {} were kept'.format(N),
-              'in state {} a leading comment emits {} / next state {}'.format(
-                  *(bad_keep or (None, None, None))), mm.core.loc)
-    res.check(bad_drop is None, 'R-C19-header', where,
-              'later comments emit nothing',
-              'comments after the header or after code are dropped, never '
-              'turned into text',
-              'a non-header comment emits {1} in state {0}'.format(
-                  *(bad_drop or (None, None))), mm.core.loc)
+              'the first {} leading comments emit their code + a line end '
+              'whatever spaces / blank lines surround them; further ones '
+              'emit nothing'.format(N),
+              'leading comment number {} emits {} (expected {})'.format(
+                  *(bad_keep or (N + 1, sorted(emits.get(N + 1, ()),
+                                              key=repr))),
+                  'its code and a line end' if not bad_keep else 'nothing'),
+              mm.core.loc)
     res.check(bad_pre is None, 'R-C19-header', where,
               'nothing precedes the header', 'spaces and blank lines before '
               'and between the header comments are dropped',
               '{} token emits {} before any code (state {})'.format(
                   *((bad_pre[0], bad_pre[2], bad_pre[1]) if bad_pre
                     else (None, None, None))), mm.core.loc)
-    # the code-seen flag
-    flag_bad = None
+    # after any code token a comment emits nothing, in every reachable state
+    after = set()
     for (c, s), (_o, ns) in mm.table.items():
-        if c in mm.code_classes and not ns[i_seen]:
-            flag_bad = (c, 'does not set')
-        if c not in mm.code_classes and ns[i_seen] != s[i_seen]:
-            flag_bad = (c, 'changes')
-    res.check(flag_bad is None, 'R-C19-header', where,
-              'code-seen flag set by exactly the code classes', '',
-              'a {} token {} the code-seen flag'.format(
-                  *(flag_bad or ('', ''))), mm.core.loc)
-    # the header test comes before the comment-dropping branch: covered by
-    # the table (a header comment is emitted, not dropped)
+        if c in mm.code_classes:
+            after.add(ns)
+    todo = list(after)
+    while todo:
+        s = todo.pop()
+        for c in mm.classes:
+            ns = mm.table[(c, s)][1]
+            if ns not in after:
+                after.add(ns)
+                todo.append(ns)
+    bad_drop = None
+    for s in after:
+        outs, _ns = mm.table[('Comment', s)]
+        if outs:
+            bad_drop = (s, outs)
+    res.check(bad_drop is None, 'R-C19-header', where,
+              'later comments emit nothing',
+              'comments after code are dropped, never turned into text',
+              'a comment after code emits {1} in state {0}'.format(
+                  *(bad_drop or (None, None))), mm.core.loc)
     return N
 
 
 def rule_agree(ctx, res, N):
+    from ..absint.symbody import SymBody
     model = ctx.model
     idx = {}
     for name in ('get_title', 'get_byline'):
         f = model.func('pico8.lua.lua:Lua.' + name)
-        for n in walk_own(f.node):
-            if isinstance(n, ast.Subscript) and \
-                    isinstance(n.slice, ast.Constant) and \
-                    isinstance(n.slice.value, int) and \
-                    'tokens' in ast.unparse(n.value):
-                idx[name] = n.slice.value
-        isc = any(isinstance(n, ast.Call) and isinstance(n.func, ast.Name)
-                  and n.func.id == 'isinstance' and
-                  'TokComment' in ast.unparse(n) for n in walk_own(f.node))
+        found = set()
+        isc = False
+        for p in SymBody(ctx, f).run(f.node.body):
+            exprs = [t for (t, _v) in p.conds]
+            if p.ret is not None:
+                exprs.append(p.ret)
+            for e in exprs:
+                for n in ast.walk(e):
+                    if isinstance(n, ast.Subscript) and \
+                            isinstance(n.slice, ast.Constant) and \
+                            isinstance(n.slice.value, int) and \
+                            ast.unparse(n.value).endswith('tokens'):
+                        found.add(n.slice.value)
+                    if isinstance(n, ast.Call) and \
+                            isinstance(n.func, ast.Name) and \
+                            n.func.id == 'isinstance' and \
+                            'TokComment' in ast.unparse(n):
+                        isc = True
+        if len(found) == 1:
+            idx[name] = found.pop()
         res.check(name in idx and isc, 'R-C19-agree', f.qual,
                   name + ' reads a leading comment token',
                   'token index {}'.format(idx.get(name)),
